@@ -31,7 +31,11 @@ func specITF8() tfSpec {
 			if k <= 4 {
 				return tfBigEndian(k, 7*k)
 			}
-			// 1111 v31..v28 | v27..20 | v19..12 | v11..4 | xxxx v3..v0
+			// 1111 v31..v28 | v27..20 | v19..12 | v11..4 | 0000 v3..v0
+			// (the high nibble of the last byte is zero in the encoding the
+			// specification's own EOF container shows – ITF8(-1) = ff ff ff ff 0f –
+			// and in htslib's; it was treated as unspecified here until a
+			// ninth-round sub-agent pointed at the EOF container)
 			for t := 0; t < 4; t++ {
 				out[0][7-t] = 1
 				out[0][t] = bIn(28 + t)
@@ -43,7 +47,7 @@ func specITF8() tfSpec {
 			}
 			for t := 0; t < 4; t++ {
 				out[4][t] = bIn(t)
-				out[4][4+t] = bTop
+				out[4][4+t] = 0
 			}
 			return out
 		}}
@@ -447,7 +451,7 @@ func init() {
 			{Name: "STREAM-EOF", What: "the cram stream readers replace an io.EOF from the read of a value's announced remainder by io.ErrUnexpectedEOF: fewer bytes than the first byte announced is a failure, not the clean end every layer above takes io.EOF for (added for a defect of the unchanged tree, repaired f9028f6)", Floor: 2, Run: ruleStreamEOF},
 		},
 		Explanation: "Proof by abstract interpretation of the go/ssa form of Encode, Decode and Len in a per-bit provenance domain: each path of Encode is a length class (an interval of the unsigned input obtained from the comparisons on the path); on each class the bytes stored are compared bit by bit with the CRAM specification's layout, Decode is then interpreted on those abstract bytes and must return the input bits, the class length and ok. Decode alone is interpreted for every first-byte class × available length 0..9 with all other bits symbolic: announced length, ok ⇔ enough bytes, no read at or beyond the announced length, value equal to the specification's decoding. Any branch the interpreter cannot decide, any out-of-range index and any reachable panic is a failed obligation.",
-		NotDecided:  "the unused high nibble of the fifth ITF-8 byte (unspecified by the format, treated as don't-care).",
+		NotDecided:  "nothing of the codec; for Decode the high nibble of the fifth ITF-8 byte is accepted whatever it is (decoders mask it).",
 		Assumptions: []string{"go/ssa construction is faithful", "transfer functions of the bit domain (absint.go) are correct", "spec tables in c20.go transcribe CRAM §2.3"},
 	})
 }
